@@ -217,7 +217,7 @@ fn gen_cfg(r: &mut Rng, o: &WorldOpts) -> TrkCfg {
         None
     };
     let visual = visual.map(|mut v| {
-        v.threshold = if v.cosine { *r.pick(&[0.9f32, 0.95]) } else { *r.pick(&[0.5f32, 1.0, 2.0]) };
+        v.threshold = if v.cosine { *r.pick(&[0.3f32, 0.4, 0.6, 0.9, 0.95]) } else { *r.pick(&[0.5f32, 1.0, 2.0]) };
         v
     });
     TrkCfg {
